@@ -25,5 +25,6 @@ CleanScope(gg, T, ev, blog) ==
   CASE ev.mode = "all" -> UNION {EdgeFiles(gg, i) : i \in {j \in DOMAIN gg.stmts : ~gg.stmts[j].phony /\ (ev.gflag \/ ~gg.stmts[j].gen)}}
     [] ev.mode = "targets" -> UNION {EdgeFiles(gg, i) : i \in {j \in CleanClose(gg, {Prod(gg, t) : t \in ToS(ev.args)} \ {0}, Len(gg.stmts) + 1) : ~gg.stmts[j].phony}}
     [] ev.mode = "rules" -> UNION {EdgeFiles(gg, i) : i \in {j \in DOMAIN gg.stmts : ~gg.stmts[j].phony /\ ("r" \o ToString(gg.stmts[j].id)) \in ToS(ev.args)}}
-    [] ev.mode = "dead" -> {blog[k].o : k \in DOMAIN blog} \ (AllOuts(gg) \cup UNION {ManIn(gg.stmts[i]) \cup ToS(gg.stmts[i].oo) : i \in DOMAIN gg.stmts})
+    \* (a file that a statement still names - as output, as input of any kind or as validation target - appears in the graph)
+    [] ev.mode = "dead" -> {blog[k].o : k \in DOMAIN blog} \ (AllOuts(gg) \cup UNION {ManIn(gg.stmts[i]) \cup ToS(gg.stmts[i].oo) \cup ToS(gg.stmts[i].val) : i \in DOMAIN gg.stmts})
 =============================================================================
